@@ -283,4 +283,5 @@ def rule_views(repo: Repo) -> RuleResult:
 
 
 def rules(repo: Repo, tier: str) -> List[RuleResult]:
-    return [rule_eq(repo), rule_copy(repo), rule_serialize(repo), rule_views(repo)]
+    from . import c08
+    return [rule_eq(repo), rule_copy(repo), rule_serialize(repo), rule_views(repo), c08.rule_valuetext(repo, "C14.valuetext")]
